@@ -36,7 +36,7 @@ try:
         o, _ = p.communicate(timeout=900)
         out[f"cli/case{i}/__exit__"] = str(p.returncode)
         if p.returncode != 0:
-            out[f"cli/case{i}/__tail__"] = o[-300:]
+            out[f"cli/case{i}/__tail__"] = re.sub(r"\S*outdigest\.[A-Za-z0-9_]+", "<TMP>", o)[-300:].split("\n", 1)[-1]
         digest(d, f"cli/case{i}")
     # API renderings of the test networks
     code = r'''
